@@ -1,8 +1,5 @@
 package main
 
-func genPreds(env *constEnv, lex *pkgInfo) string {
-	return "(* GENERATED stub *)\n"
-}
 func genPrinter(env *constEnv, as *pkgInfo) string {
 	return "(* GENERATED stub *)\n"
 }
